@@ -123,7 +123,7 @@ def run(chk):
     import logging
     logging.getLogger('AbacusHOD').setLevel(logging.ERROR)
     root = os.path.join(chk.scratch, 'hod')
-    pick = cases if not chk.quick else cases[:: max(1, len(cases) // 90)]
+    pick = cases[:: 3] if not chk.quick else cases[:: max(1, len(cases) // 90)]
     nrun = nontriv = 0
     for ci, c in enumerate(pick):
         slabs = [[int(x) * 7 + 3 for x in s] for s in c['slabs'] if True]          # spread the ids (still distinct, same order)
